@@ -84,6 +84,24 @@ impl Log {
   }
 }
 
+/// a shared boolean (re-entrancy guards in callbacks)
+pub struct Flag {
+  v: Cell<bool>,
+}
+unsafe impl Sync for Flag {}
+unsafe impl Send for Flag {}
+impl Flag {
+  pub fn new() -> &'static Flag {
+    Box::leak(Box::new(Flag { v: Cell::new(false) }))
+  }
+  pub fn get(&self) -> bool {
+    self.v.get()
+  }
+  pub fn set(&self, b: bool) {
+    self.v.set(b)
+  }
+}
+
 /// a late-bound handle so that a callback can call back into the object it is registered on (re-entrancy)
 pub struct Slot<T> {
   v: Cell<Option<T>>,
